@@ -268,6 +268,10 @@ type session struct {
 	r      *world.Run
 	g      *tsskit.Group
 	wantDE map[int]bool
+	// lean traces: queues hold at most two pairs and run empty (2 -> 1 -> 0 -> refill); which members still hold a pair is
+	// then the harness's OWN count (pairs it enqueued minus pairs the chain assigned), not the stored queue bounds
+	lean bool
+	cnt  map[int]int
 	deN    int
 	msgN   int
 	tries  int
@@ -315,6 +319,12 @@ func (s *session) available(ctx sdk.Context) []int {
 		if err != nil || !m.IsActive {
 			continue
 		}
+		if s.lean {
+			if s.cnt[int(m.ID)] > 0 {
+				out = append(out, int(m.ID))
+			}
+			continue
+		}
 		q := tk.GetDEQueue(ctx, acc)
 		if q.Tail > q.Head {
 			out = append(out, int(m.ID))
@@ -333,13 +343,21 @@ func (s *session) topUp() {
 			if n > 0 {
 				_ = tk.ResetDE(s.r.Ctx, m.Acc.Addr)
 			}
+			s.cnt[i+1] = 0
 			continue
 		}
-		if n >= 8 {
+		fill := 12
+		if s.lean {
+			if s.cnt[i+1] > 0 {
+				continue
+			}
+			n, fill = 0, 2
+			s.cnt[i+1] = 2
+		} else if n >= 8 {
 			continue
 		}
 		var pubs []tsstypes.DE
-		for ; n < 12; n++ {
+		for ; n < fill; n++ {
 			s.deN++
 			pubs = append(pubs, tsskit.NewDE(fmt.Sprintf("smp-%d", s.deN)).Pub())
 		}
@@ -382,7 +400,8 @@ func (s *session) onBranch(msg sdk.Msg, read func(ctx sdk.Context) []int) (bool,
 
 func (d *Driver) runChain(sc tf.Script) {
 	w, sp := d.world(tf.Int(sc.C, "world", 0))
-	s := &session{d: d, w: w, sp: sp, r: w.Branch(), wantDE: map[int]bool{}, tries: tf.Int(sc.C, "tries", 3)}
+	s := &session{d: d, w: w, sp: sp, r: w.Branch(), wantDE: map[int]bool{}, tries: tf.Int(sc.C, "tries", 3),
+		lean: tf.Bool(sc.C, "lean", false), cnt: map[int]int{}}
 	if s.tries < 1 {
 		s.tries = 1
 	}
@@ -396,6 +415,9 @@ func (d *Driver) runChain(sc tf.Script) {
 	}
 	tp := app.TSSKeeper.GetParams(r.Ctx)
 	tp.MaxSigningAttempt, tp.SigningPeriod, tp.MaxDESize = maxAttempt, 1, 100
+	if s.lean {
+		tp.MaxSigningAttempt = 1 // no retries: every committee is drawn by a request, where the own count is exact
+	}
 	if err := app.TSSKeeper.SetParams(r.Ctx, tp); err != nil {
 		panic(err)
 	}
@@ -568,6 +590,9 @@ func (s *session) apply(step tf.M) bool {
 		var sel []int
 		if o.OK() {
 			sel = read(r.Ctx)
+			for _, m := range sel {
+				s.cnt[m]--
+			}
 		}
 		d.W.Step("Sign", tf.M{"sid": int(sid), "att": 1, "w": avail, "cnt": t, "ds": limbsShifted(ds, 0)},
 			tf.M{"ok": o.OK(), "sel": ints(sel), "okAgain": ok2, "again": ints(again), "err": errText(o)}, s.state())
@@ -609,7 +634,7 @@ func (s *session) apply(step tf.M) bool {
 			switch {
 			case sg.Status == tsstypes.SIGNING_STATUS_WAITING && sg.CurrentAttempt == b.att+1:
 				okRetry = true
-			case sg.Status == tsstypes.SIGNING_STATUS_FALLEN && b.att < maxAttempt:
+			case sg.Status == tsstypes.SIGNING_STATUS_FALLEN && b.att < maxAttempt && !s.lean:
 				okRetry = false
 			default:
 				continue // not expired yet, or out of attempts (not a sampling outcome)
@@ -802,7 +827,7 @@ func randChain(rng *rand.Rand) tf.Script {
 		gt = 1 + rng.Intn(gn/2) // leaves room for retries after the idle members are deactivated
 	}
 	c := tf.M{"kind": "chain", "world": wi, "tries": []int{1, 2, 3, 3, 3, 5}[rng.Intn(6)], "inactive": subset(rng, nv, 15),
-		"gn": gn, "gt": gt, "minactive": subset(rng, gn, 12), "node": subset(rng, gn, 12)}
+		"gn": gn, "gt": gt, "minactive": subset(rng, gn, 12), "node": subset(rng, gn, 12), "lean": rng.Intn(3) == 0}
 	var steps []tf.M
 	n := 8 + rng.Intn(10)
 	for i := 0; i < n; i++ {
